@@ -8,7 +8,7 @@ TECH = 'contract-based deductive verification of the real code (pyvc: the reposi
 BND = 'bounded run-time contract check of the real pandas/numpy-bound functions against an independent pure-Python spec (stand-in, never counted as proved)'
 
 P = {
- 'C01': ('proof', 'Every cash-moving public operation of Portfolio and SimulatedBroker has a postcondition taken from the statement (exact debit/credit, zero-sum transfers, one rounded history event) and every other operation has cash/history in its unchanged frame; discharged for arbitrary states satisfying the class invariants, so the ledger equation holds after every finite interleaving (object-invariant induction). update() is proved through five cut loops with ghost cash/quantity ledgers.',
+ 'C01': ('proof', 'Every cash-moving public operation of Portfolio and SimulatedBroker has a postcondition taken from the statement (exact debit/credit, zero-sum transfers, one rounded history event) and every other operation has cash/history in its unchanged frame; discharged for arbitrary states satisfying the class invariants, so the ledger equation holds after every finite interleaving (object-invariant induction). update() is proved through five cut loops with ghost cash/quantity ledgers. Account totals are preceded by an earlier query and a transfer (no stale memo); the session wiring funds ONE portfolio by a zero-sum transfer from the master account. History-dependent state outside the class invariants (undecided symbolically) is decided by the bounded API-sequence module (not counted as proved).',
          'real arithmetic for floats; builtin/numpy shims of DESIGN 2.6; portfolio methods seen by the broker through their verified contract object (PortfolioSpec); closed-world scan of writers; known findings F4-F6 are C15-side', '4 C01'),
  'C02': ('proof', 'Net quantity = sum of fills, held iff non-zero, latest price = last fill or mark, market value = SUM qty x price, equity = cash + market value: postconditions/invariants on Position, PositionHandler, Portfolio (over a symbolic region of positions) and SimulatedBroker (over portfolio contract objects), discharged for all states and all map sizes.',
          'as C01; SUM is an uninterpreted finite sum with engine-side definitional unfolding; P&L properties replaced by their L0 contract inside the L1 valuation harness', '4 C02'),
@@ -19,7 +19,7 @@ P = {
  'C05': ('proof', 'On every path of _execute_order: one quote read at (dt, asset), ask for buys / bid for sells, stamp = broker clock, full quantity, commission = fee model applied to round(price x quantity) and actually charged; percentage model = (c+t)|x| >= 0 and symmetric, zero model = 0.',
          'round() uninterpreted with |r-x|<=1/2, integer, odd; data handler and fee model seen through contract stubs', '4 C05'),
  'C06': ('other', 'Deductive part: BacktestDataHandler (first non-NaN source in order, raising source = NaN, bid_ask = (bid, bid), mid = (bid+ask)/2, every source queried at the caller\'s dt) proved for 0-3 sources and all answers. The CSV source itself is pandas (unstack/ffill/sort_index/get_indexer): no contract within a deductive verifier\'s reach decides it. Bounded stand-in: the real CSVDailyBarDataSource/BacktestDataHandler on enumerated bar files (0-4 bars, permutations, missing cells, adjust on/off, two assets) x 31-instant lattice against an independent row-scan spec; exhaustive inside the stated bound in the thorough tier.',
-         'CSV source NOT proved (bounded, four 7-day windows incl. DST switches); known finding F10 (header-only CSV)', '4 C06'),
+         'CSV source NOT proved (bounded, four 7-day windows incl. DST switches; answers independent of query history); handler statelessness (earlier queries at any instant) and the session\'s default source (one source over every file) proved; known finding F10 (header-only CSV)', '4 C06'),
  'C07': ('other', 'Deductive part: query-time discipline - every data-handler query made by broker.update/_execute_order (and, as they come under contract, sizers/PCM/signals) is at the caller\'s dt (ghost query log). The two-run relation itself is not expressible as a function contract: bounded relational stand-in runs the real session on D and on D with the future rewritten/deleted and compares prefixes bit for bit.',
          'hyperproperty not proved; composition argument in DESIGN.md; bounded by number of markets x cuts', '4 C07'),
  'C08': ('other', 'Conjunction of functional contracts proved elsewhere (C04, C05, C09-C11, C02) plus wiring; end-to-end equality with an independent reference implementation of the documented rules is a bounded stand-in on synthetic markets.',
@@ -30,9 +30,9 @@ P = {
          'floor/isclose/isnan shims; fee family r|x|, 0<=r<=1; known findings F7 (r>1) and F8 (0<sum<=1e-8)', '4 C10'),
  'C11': ('proof', 'Per-asset kernel: integer q with the sign of its weight, truncation toward zero, one-currency-unit maximality, |q|p <= (1+r)|A|; leverage <= 0 and NaN price rejected; Lean lemma gross.',
          'as C10', '4 C11'),
- 'C12': ('other', 'Deductive part: for an arbitrary business day the generator yields exactly [pre]? open close [post]? at 00:00/14:30/21:00/23:59 UTC of that day, strictly increasing within and across days, for all four flag combinations; end < start rejected (ValueError) exactly. Calendar generation is pd.date_range(freq=BDay()): bounded stand-in against an independent datetime calendar (every start date 2015-12-15..2032-03-15 x 16 lengths x start times x flags in the thorough tier).',
+ 'C12': ('other', 'Deductive part: for an arbitrary business day the generator yields exactly [pre]? open close [post]? at 00:00/14:30/21:00/23:59 UTC of that day, strictly increasing within and across days, for all four flag combinations; end < start rejected (ValueError) exactly; the session builds its clock over [start, end] without pre/post-market events whatever the burn-in date. Calendar generation is pd.date_range(freq=BDay()): bounded stand-in against an independent datetime calendar (every start date 2015-12-15..2032-03-15 x 16 lengths x start times x flags in the thorough tier).',
          'which dates are business days is NOT proved (bounded); datetime/Timestamp construction through the civil-calendar shim of DESIGN 2.6', '4 C12'),
- 'C13': ('other', 'Deductive part (loop-free): weekday accepted iff MON..FRI case-insensitively else ValueError; stamp 14:30:00 iff pre-market else 21:00:00 in all three classes. Schedules are pd.date_range/bdate_range outputs: bounded stand-in over the same calendar window, every weekday, both pre-market flags, and the cross-check that every instant is emitted by the real clock.',
+ 'C13': ('other', 'Deductive part (loop-free): weekday accepted iff MON..FRI case-insensitively else ValueError; stamp 14:30:00 iff pre-market else 21:00:00 in all three classes; the session uses the schedule class named by `rebalance` over [start, end], unaffected by burn-in and by sessions built later. Schedules are pd.date_range/bdate_range outputs: bounded stand-in over the same calendar window, every weekday, both pre-market flags, the cross-check that every instant is emitted by the real clock (start times before and after the rebalance time of the start date), and a later session in the same process.',
          'schedule dates NOT proved (bounded)', '4 C13'),
  'C14': ('other', 'Deductive part: the real run() loop cut at an arbitrary clock event - broker.update(event time) first and once; signals iff given and market close; portfolio construction iff scheduled and not before burn-in; one equity point iff market close and not before burn-in, read after the rebalance; no early exit - for all four signals/burn-in configurations (Lean trace_filter lifts it to the run); exchange-hours predicate; ExecutionHandler/QTS wiring. Bounded stand-in on real sessions for the pandas tables (equity dates, allocation forward fill) and the end-to-end statement.',
          'pandas reindex/ffill tables bounded only', '4 C14'),
@@ -42,7 +42,7 @@ P = {
          'numeric signal values bounded only', '4 C16'),
  'C17': ('other', 'Deductive part: the explicit high-water-mark loop of create_drawdowns for series of any length - after the loop hwm[j] is the running maximum of observations 0..j INCLUDING the first (integer-indexed array and range-loop cut by an invariant). Everything else (returns, aggregates, CAGR/Sharpe/Sortino, the vectorised drawdown ratio, duration, the two reporters) is pandas/numpy/transcendental: bounded stand-in against pure-Python definitions on business-day curves crossing month/year/ISO-week-53 boundaries.',
          'all statistics except the high-water-mark loop are NOT proved (bounded)', '4 C17'),
- 'C18': ('other', 'Order-insensitivity is built into the proofs (set iteration arbitrary, order ids opaque): batch sort key reads the direction only, order ids never compared/hashed. Cross-run / cross-interpreter identity is a statement about CPython: bounded stand-in (repeat runs, shared data source, PYTHONHASHSEED sweep).',
+ 'C18': ('other', 'Order-insensitivity is built into the proofs (set iteration arbitrary, order ids opaque): batch sort key reads the direction only, order ids never compared/hashed. The data handler is proved stateless (earlier queries at any instant leave nothing behind) and the session proved to leave a given data handler and its sources untouched. Cross-run / cross-interpreter identity is a statement about CPython: bounded stand-in (repeat runs, shared data source, fresh-vs-used source, PYTHONHASHSEED sweep).',
          'cross-interpreter identity bounded only', '4 C18'),
  'C19': ('proof', 'Universe membership (inclusive entry, None excluded, static list), single-signal alpha keys = universe at dt, fixed-weight identity, equal-weight values scale/N summing to scale (Lean const_sum), for dictionaries of any size.',
          'universe seen by the alpha model through its contract stub', '4 C19'),
